@@ -107,6 +107,40 @@ pub fn run(out: &mut Out, seed: u64, thorough: bool) {
                 if r.is_ok() && is_master { chain.push(e.id); unk.push(as_unknown); }
             }
         }
+        // systematic: every chain that a declared all-named path spells out (the path of a master plus the master itself),
+        // every assignment of unknown sizes to it, every tag of the specification - the reader judges an element that
+        // closes unknown-size masters against the chain that remains after closing them
+        let chains: Vec<Vec<u64>> = s.entries.iter().filter(|e| e.ty == TagDataType::Master && e.path.iter().all(|p| matches!(p, PathPart::Id(_))))
+            .map(|e| { let mut c: Vec<u64> = e.path.iter().map(|p| match p { PathPart::Id(i) => *i, _ => 0 }).collect(); c.push(e.id); c })
+            .filter(|c| c.len() >= 2 && c.len() <= 4).collect();
+        for chain in chains.iter().take(if thorough { 12 } else { 4 }) {
+            for mask in 0..(1u32 << chain.len()) {
+                if !thorough && n % 3 != 0 && mask.count_ones() < 2 { continue; }
+                let unk: Vec<bool> = (0..chain.len()).map(|k| (mask >> k) & 1 == 1).collect();
+                for e in s.entries.iter() {
+                    let mut dest: Vec<u8> = Vec::new();
+                    let mut w = TagWriter::new(&mut dest);
+                    let mut opened = true;
+                    for (k, id) in chain.iter().enumerate() {
+                        let st = DynTag { id: *id, v: DynVal::M(Master::Start) };
+                        let r = if unk[k] { w.write_advanced(&st, WriteOptions::is_unknown_sized_element()) } else { w.write(&st) };
+                        if r.is_err() { opened = false; break; }
+                    }
+                    if !opened { continue; }
+                    let is_master = e.ty == TagDataType::Master;
+                    let tag = if is_master { DynTag { id: e.id, v: DynVal::M(Master::Start) } } else { gen::to_tag(&gen::Node::leaf(e.id, gen::rand_val(&mut rng, e.ty, false, false).0)) };
+                    let r = w.write(&tag);
+                    let (wv, wid) = match &r {
+                        Ok(()) => ("ok".to_string(), json!([])),
+                        Err(TagWriterError::UnexpectedTag { tag_id, .. }) => ("unexpected_tag".to_string(), idw(*tag_id)),
+                        Err(_) => ("other".to_string(), json!([])),
+                    };
+                    let (rv, rid) = reader_verdict(chain, &unk, e.id, is_master, e.ty);
+                    out.ev(json!({"ev":"path","chain":chain.iter().map(|c| idw(*c)).collect::<Vec<_>>(),"unk":unk,"tag":idw(e.id),"tag_unknown":false,
+                                  "w":wv,"wid":wid,"r":rv,"rid":rid}));
+                }
+            }
+        }
         out.ev(json!({"ev":"end"}));
     }
 }
